@@ -73,7 +73,7 @@ theorem endBlock_getSeq_nonproposer {s : St} {a : Addr} (h : NoProp s a) (f : Li
 theorem endBlock_changed_record {s : St} {f : List (Nat × Nat)} {a : Addr} {q q' : Seq}
     (hl : Lev s) (hc : Cust s) (ho : OwnN s) (hpos : 1 ≤ s.h)
     (hq : getSeq s a = some q) (hq' : getSeq (endBlock s f) a = some q') (hne : q' ≠ q) :
-    ∃ ra r, getRa s ra = some r ∧ r.proposer = some a ∧ r.evH = s.h ∧ q' = slashOnce s.p q := by
+    ∃ ra r, getRa s ra = some r ∧ r.proposer = some a ∧ r.evH = s.h ∧ q' = slashOnce s.sqp q := by
   by_cases hp : ∃ ra r, getRa s ra = some r ∧ r.proposer = some a
   · obtain ⟨ra, r, hg, hpa⟩ := hp
     have hu : Uniq s a ra := ho.uniq hg hpa
